@@ -336,7 +336,22 @@ impl Prop for OperatorInRule {
         use crate::c18::{Behaviour, GenRule, RuleSpec};
         let op = RULE_OPS[c.op as usize % RULE_OPS.len()];
         let lang = if c.lang % 4 == 3 { "tr" } else { "en" };
-        let (pattern, body) = match c.layout % 3 {
+        // (wave 9) layouts 3-5: a {PERCENT}/{MONEY} field matched by a literal made of several lexer pieces (sign or
+        // symbol first, k/M suffix); only the validity of the spans is asserted for those
+        let typed = c.layout % 6 >= 3;
+        let (pattern, body) = match c.layout % 6 {
+            3 => ("rate {PERCENT:n}".to_string(), if c.k % 2 == 0 { format!("rate %{}", c.n) } else { format!("rate {}%", c.n) }),
+            4 => (
+                "fee {MONEY:n}".to_string(),
+                match c.k % 5 {
+                    0 => format!("fee ${}", c.n),
+                    1 => format!("fee {} usd", c.n),
+                    2 => format!("fee {}k usd", c.n),
+                    3 => format!("fee \u{20ac}{}", c.n),
+                    _ => format!("fee ${}k", c.n),
+                },
+            ),
+            5 => ("{MONEY:n} due".to_string(), if c.k % 2 == 0 { format!("${} due", c.n) } else { format!("{}M eur due", c.n) }),
             0 => (format!("{{NUMBER:n}} {} {{NUMBER:k}}", op), format!("{} {} {}", c.n, op, c.k)),
             1 => (format!("frob {{NUMBER:n}} {} {{NUMBER:k}}", op), format!("frob {} {} {}", c.n, op, c.k)),
             _ => (format!("{{NUMBER:n}} {} {{NUMBER:k}} zork", op), format!("{} {} {} zork", c.n, op, c.k)),
@@ -361,10 +376,14 @@ impl Prop for OperatorInRule {
         let ui: Vec<UiToken> = out.ui.last().cloned().unwrap_or_default();
         let mut acc = Acc::new();
         // the rule matched: the line is the number the rule computes
-        let matched = matches!(out.slots.last(), Some(crate::common::Slot::Ok { v: crate::common::V::Num(x, _), .. }) if *x == 1.0 + 2.0 * c.n as f64 + 3.0 * c.k as f64);
+        let matched = if typed {
+            matches!(out.slots.last(), Some(crate::common::Slot::Ok { v: crate::common::V::Num(_, _), .. }))
+        } else {
+            matches!(out.slots.last(), Some(crate::common::Slot::Ok { v: crate::common::V::Num(x, _), .. }) if *x == 1.0 + 2.0 * c.n as f64 + 3.0 * c.k as f64)
+        };
         if let Err(e) = check_valid(&ui, &line) {
             acc.fail(e);
-        } else {
+        } else if !typed {
             let chars: Vec<char> = line.chars().collect();
             for (pos, ch) in chars.iter().enumerate() {
                 if *ch == op && !ui.iter().any(|u| u.ui_type == UiTokenType::Operator && (u.start, u.end) == (pos, pos + 1)) {
@@ -382,12 +401,12 @@ impl Prop for OperatorInRule {
                 pos += n + 1;
             }
         }
-        acc.finish(rendered).nt(matched).class("operator-in-a-rule-pattern").class_if(matched, "the-rule-matched").class_if(c.lead.is_some(), "multi-byte-word-before")
+        acc.finish(rendered).nt(matched).class("operator-in-a-rule-pattern").class_if(matched, "the-rule-matched").class_if(typed, "percent-or-money-field").class_if(c.lead.is_some(), "multi-byte-word-before")
     }
 }
 
 pub fn ruleop_strategy() -> impl Strategy<Value = RuleOp> {
-    (0u8..9, 0u8..3, 0u32..1000, 0u32..1000, prop::option::weighted(0.4, 0u8..14), 0u8..4).prop_map(|(op, layout, n, k, lead, lang)| RuleOp { op, layout, n, k, lead, lang })
+    (0u8..9, 0u8..6, 0u32..1000, 0u32..1000, prop::option::weighted(0.4, 0u8..14), 0u8..4).prop_map(|(op, layout, n, k, lead, lang)| RuleOp { op, layout, n, k, lead, lang })
 }
 
 pub fn case_strategy() -> impl Strategy<Value = Case> {
